@@ -224,6 +224,7 @@ class Gen:
             self.sim[r] = s
 
     def fmt(self, r, style=None):
+        self.ensure_filled(r, p=0.7)
         self.ops.append([64 if r < 2 else 164, r, self.r.randint(0, 2) if style is None else style])
 
     def serde(self, r, r2):
